@@ -24,7 +24,7 @@ Inductive rlev :=
          (hint : Z) (ars : list rarr) (ob : lobs).
 
 Inductive lcase :=
-| CL (ht : htab) (bl fl tfh : runs) (genesis : Z) (conn honest : list Z) (evs : list rlev).
+| CL (ht : htab) (bl fl tfh : runs) (genesis : Z) (hard : list (Z * Z)) (conn honest : list Z) (evs : list rlev).
 
 Definition mk_cp (r : rcp) : cpresp :=
   let '(p, g, s, l) := r in {| cr_peer := p; cr_reg := g; cr_stop := s; cr_list := unruns l |}.
@@ -173,7 +173,22 @@ Fixpoint run_evs (id : Z) (s : lstate) (m : mon) (i : Z) (mism : bool) (evs : li
         else [] in
       let m' := {| m_tfh := m_tfh m; m_thd := m_thd m;
                    m_conn := List.filter (fun q => negb (mem q obans)) (m_conn m); m_ok := hyp |} in
-      r1 ++ r10 ++ r2 ++ run_evs id s' m' (i + 1) (mism || negb same) rest
+      (* hard-coded control checkpoints, whoever is honest: the sender of an
+         accepted list that (capped at the tip) contradicts one at any entry
+         is banned in this round; a filter tip at a control height carries
+         the control value *)
+      let r3 :=
+        let ncap := zn ((zlen bl - 1) / INTERVAL) in
+        let ok_ban := List.forallb (fun r : rcp =>
+                        let '(q, g, st, l) := r in
+                        negb (g && opt_eqb Z.eqb (Some st) oasked) ||
+                        negb (peer_hard_bad (c_hard cfg) (take ncap (unruns l))) || mem q obans) cpans in
+        let ok_tip := match oftip with
+                      | Some (x, h) => match c_hard cfg h with Some w => x =? w | None => true end
+                      | None => true
+                      end in
+        if ok_ban && ok_tip then [] else [(id, 2, i, 0)] in
+      r1 ++ r10 ++ r2 ++ r3 ++ run_evs id s' m' (i + 1) (mism || negb same) rest
     end
   end.
 
@@ -181,9 +196,9 @@ End Run.
 
 (* [legacy]: replay against the model of the code before the repairs F110-F112 *)
 Definition lverdict_with (legacy : bool) (c : Z * lcase) : list (Z * Z * Z * Z) :=
-  let '(id, CL ht bl fl tfh genesis conn honest evs) := c in
+  let '(id, CL ht bl fl tfh genesis hard conn honest evs) := c in
   let Hf := hlook ht in
-  let cfg := {| c_hard := fun _ => None; c_cp := None; c_genesis := genesis; c_legacy := legacy; c_height_only := legacy |} in
+  let cfg := {| c_hard := fun h => lookup h hard; c_cp := None; c_genesis := genesis; c_legacy := legacy; c_height_only := legacy |} in
   let a := {| abl := unruns bl; afl := unruns fl |} in
   let tf := unruns tfh in
   let m := {| m_tfh := tf; m_thd := true_headers Hf tf; m_conn := conn; m_ok := true |} in
